@@ -49,11 +49,21 @@ pub fn vx_static__DEAD_LETTER_COUNT() -> (r: &'static AtomicU64) ensures r.cell(
 pub fn vx_static__CONFIGURED_DEFAULT_MAILBOX_CAPACITY() -> (r: &'static OnceLock<usize>) ensures r.cell() == cell_DEFAULT_CAPACITY() { unimplemented!() }
 
 /// rule R3: the one log line that is an observable effect — the structured dead-letter warning
+#[cfg(not(feature = "vx-nodl"))]
 #[verifier::external_body]
 pub fn vx_emit_dead_letter(actor_id: u64, actor_type: &'static str, message_type: &'static str,
                            reason: DeadLetterReason, operation: &'static str, w: &mut World)
     ensures
         final(w).log() == old(w).log().push(Eff::DeadLetterLog(actor_id, actor_type@, message_type@, reason, operation@)),
+        same_ambient(*old(w), *final(w)),
+{ }
+/// attribution variant `vx-nodl`: the dead-letter alphabet is erased
+#[cfg(feature = "vx-nodl")]
+#[verifier::external_body]
+pub fn vx_emit_dead_letter(actor_id: u64, actor_type: &'static str, message_type: &'static str,
+                           reason: DeadLetterReason, operation: &'static str, w: &mut World)
+    ensures
+        final(w).log() == old(w).log(),
         same_ambient(*old(w), *final(w)),
 { }
 
